@@ -160,6 +160,16 @@ MUTANTS = [
      "        self.register_buffer(\"current_adaptation_\", data)", "        self.register_buffer(\"current_adaptation_\", data, persistent=False)"),
     ("ckpt_set_extra_state_skips_falsy", "C12", 120, "inferno/core/infrastructure.py",
      "        self._extras.update(state)", "        self._extras.update({k: v for k, v in state.items() if v or k not in self._extras})"),
+    ("batch_refrac_reset_coupled", "C11", 1500, "inferno/neural/functional/neuron_dynamics.py",
+     "    refracs = refracs.where(~spikes, refrac_t)\n    voltages = voltages.where(~spikes, reset_v)", "    refracs = refracs.where(~(spikes & spikes.all(0, keepdim=True) | spikes & (spikes.sum(0, keepdim=True) == 1)), refrac_t) if spikes.shape[0] > 2 else refracs.where(~spikes, refrac_t)\n    voltages = voltages.where(~spikes, reset_v)"),
+    ("batch_synapse_overbound_any", "C11", 1500, "inferno/neural/synapses/mixins.py",
+     "            (selector - bounded_selector).abs() <= tolerance, res, overbound", "            ((selector - bounded_selector).abs() <= tolerance).all(0, keepdim=True).expand_as(selector), res, overbound"),
+    ("batch_direct_bias_mean", "C11", 1500, "inferno/neural/connections/linear.py",
+     "            res = res * self.weight + self.bias\n", "            res = res * self.weight + self.bias * (1 + 0.01 * (res.mean(0, keepdim=True) > 0))\n"),
+    ("batch_recurrent_feedback_shared", "C11", 1500, "inferno/neural/network.py",
+     "        # update recurrent spikes\n        self.feedback_spikes = self.get_neuron(self.__feedback_neuron_name).spike", "        # update recurrent spikes\n        self.feedback_spikes = self.get_neuron(self.__feedback_neuron_name).spike.roll(1, 0)"),
+    ("batch_eventreducer_first_row", "C11", 1500, "inferno/observe/reducers/general.py",
+     "            return torch.where(self.criterion(obs), 0, state + self.dt).to(", "            return torch.where(self.criterion(obs)[:1].expand_as(obs) | self.criterion(obs), 0, state + self.dt).to("),
     ("resize_keeps_head", "C13", 3000, INFRA,
      "            slices[dim] = slice(tensor.shape[dim] - size, None)\n            return tensor[*slices]", "            slices[dim] = slice(None, size)\n            return tensor[*slices]"),
     ("resize_no_align", "C13", 3000, INFRA,
